@@ -74,10 +74,15 @@ Definition C09_cancel : Prop :=
      dead_at t (fold_left (step c) evs s) /\
      hlog (step c (fold_left (step c) evs s) (TaskStep t)) = hlog (fold_left (step c) evs s)).
 
-(* (3), for the histories of class G *)
+(* (3), for the histories of class G.  Like every clause of C01 / C08 that promises an ANSWER it is stated on
+   the domain of the model, `handler_codes_int32` (Spec/EndpointSpec.v): a handler that raises a JSON-RPC
+   exception whose code is outside int32 gets no reply from the real endpoint (C07 finding
+   `wide-own-code`) whereas Model/Endpoint.v answers it; the generators produce int32 codes only
+   (the boundary values 2^31-1 and -2^31 included). *)
 Definition C09_pending (G : cfg -> list ev -> Prop) : Prop :=
   forall c pre f post, let evs := pre ++ Recv f :: post in
-    shutdown_frame f = true -> no_wfail c = true -> existsb is_exit_frame evs = false -> G c evs ->
+    shutdown_frame f = true -> handler_codes_int32 evs = true ->
+    no_wfail c = true -> existsb is_exit_frame evs = false -> G c evs ->
     quiescent (run c evs) = true ->
     (forall k, replies k (out (run c evs)) = count_id k (expected evs)) /\
     (forall k, pending_request k (run c pre) = true -> In k (expected evs)) /\
@@ -125,9 +130,9 @@ Qed.
 
 Theorem C09_pending_holds : C09_pending outside_f18.
 Proof.
-  intros c pre f post evs SF H1 H2 H3 Q.
+  intros c pre f post evs SF HC H1 H2 H3 Q.
   assert (G : guard c evs = true) by (unfold guard; rewrite H1, H2, H3; reflexivity).
-  exact (pending_still_answered_once c pre f post SF G Q).
+  exact (pending_still_answered_once c pre f post SF HC G Q).
 Qed.
 
 Theorem C09_gate_holds : C09_gate.
@@ -161,6 +166,7 @@ Definition f18_post : list ev := [JobFinish 0; WriteStep].
 
 Theorem C09_refuted_thread_awaitable :
   let evs := f18_pre ++ Recv (shutdown_request (IInt 2) None) :: f18_post in
+  handler_codes_int32 evs = true /\
   no_wfail f18_cfg = true /\ existsb is_exit_frame evs = false /\ quiescent (run f18_cfg evs) = true /\
   pending_request (IInt 1) (run f18_cfg f18_pre) = true /\ NoDup (req_ids evs) /\
   replies (IInt 1) (out (run f18_cfg evs)) = 0.
@@ -171,7 +177,7 @@ Qed.
 Theorem C09_refuted : ~ C09_statement.
 Proof.
   intros (_ & _ & H3 & _).
-  destruct (H3 f18_cfg f18_pre (shutdown_request (IInt 2) None) f18_post eq_refl eq_refl eq_refl I eq_refl) as (_ & _ & H).
+  destruct (H3 f18_cfg f18_pre (shutdown_request (IInt 2) None) f18_post eq_refl eq_refl eq_refl eq_refl I eq_refl) as (_ & _ & H).
   assert (ND : NoDup (req_ids (f18_pre ++ Recv (shutdown_request (IInt 2) None) :: f18_post))).
   { vm_compute. repeat (constructor; [cbn; intuition discriminate|]). constructor. }
   specialize (H ND (IInt 1) eq_refl). vm_compute in H. discriminate.
@@ -208,7 +214,7 @@ Definition ex_post : list ev :=
 Definition ex_evs : list ev := ex_pre ++ Recv (shutdown_request (IInt 5) None) :: ex_post.
 
 Example C09_nonvacuous :
-  no_wfail ex_cfg = true /\ existsb is_exit_frame ex_evs = false /\ outside_f18 ex_cfg ex_evs /\
+  handler_codes_int32 ex_evs = true /\ no_wfail ex_cfg = true /\ existsb is_exit_frame ex_evs = false /\ outside_f18 ex_cfg ex_evs /\
   NoDup (req_ids ex_evs) /\ quiescent (run ex_cfg ex_evs) = true /\
   values (futs (run ex_cfg ex_pre)) = [FTask 0; FTask 1; FJob 0; FJob 1; FOut 0] /\
   map (fun k => pending_request (IInt k) (run ex_cfg ex_pre)) [1%Z; 2%Z; 3%Z; 4%Z] = [true; true; true; true] /\
@@ -227,6 +233,24 @@ Proof.
   unfold outside_f18. vm_compute. repeat split.
   repeat (constructor; [cbn; intuition discriminate|]). constructor.
 Qed.
+
+(* An OUTSTANDING OUTGOING request at shutdown: cancel() is called on its future (clause (2)), but nobody
+   pops its entry of the in-flight table - only the response would, and a response that arrives after
+   the flag is set is dropped by the gate like any other frame that is not `exit` (clause (4),
+   `gate_recv` / `gate_recv_futs`: "no request or notification other than exit reaches any handler",
+   here applied to a response: _handle_response is a handler too).  The entry therefore stays until the
+   process exits; the response still consumes its `_result_types` entry (that happens while the frame is
+   deserialised, before the gate).  The real endpoint does the same (corpus/C09, last sched case). *)
+Example C09_outgoing_entry_remains :
+  let c := mkCfg WBlocking HookDefault None in
+  let o := IStr [111%N] in
+  let pre := [UserSend o; Recv (shutdown_request (IInt 1) None)] in
+  let evs := pre ++ [Recv (FResp true o false POk)] in
+  map fst (futs (run c pre)) = [o] /\ outg (run c pre) = [OCancelled] /\ map fst (rtypes (run c pre)) = [o] /\
+  map fst (futs (run c evs)) = [o] /\ outg (run c evs) = [OCancelled] /\ rtypes (run c evs) = [] /\
+  out (run c evs) = out (run c pre) /\ hlog (run c evs) = hlog (run c pre) /\ errs (run c evs) = errs (run c pre) /\
+  quiescent (run c evs) = true.
+Proof. vm_compute. repeat split. Qed.
 
 (* awaitable close: the status is decided when `exit` is handled, not when the process exits *)
 Example C09_awaitable_first_exit_wins :
